@@ -109,11 +109,11 @@ Section Agree.
     parse_top s false cx ps = Ok o p -> parse_top s true cx ps = Ok o p.
   Proof.
     unfold parse_top. intros H.
-    assert (K : keeps (run s false cx (parse_fuel s) (TGeneral ps top_opts 0))).
-    { destruct (run s false cx (parse_fuel s) (TGeneral ps top_opts 0)); cbn in H |- *;
+    assert (K : keeps (run s false cx (parse_fuel s cx) (TGeneral ps top_opts 0))).
+    { destruct (run s false cx (parse_fuel s cx) (TGeneral ps top_opts 0)); cbn in H |- *;
         try exact I; discriminate. }
     rewrite (run_agree _ _ K).
-    destruct (run s false cx (parse_fuel s) (TGeneral ps top_opts 0)); cbn in H, K |- *;
+    destruct (run s false cx (parse_fuel s cx) (TGeneral ps top_opts 0)); cbn in H, K |- *;
       try contradiction; exact H.
   Qed.
 End Agree.
